@@ -168,6 +168,30 @@ def r15_4(chk):
     ok = "'data':self._data" in unparse(red.node).replace(" ", "") and "object.__setattr__(self,'_data',state['data'])" in unparse(sst.node).replace(" ", "") \
         and "super().__setstate__(state['basestate'])" in unparse(sst.node).replace(" ", "")
     chk.inst("R15.4", f"{SV}::StateVector::pickle-values", ok, "metadata dict and array state restored where they were taken" if ok else "changed", loc(sst, sst.node))
+    # the covariance travels with its state: its own state (the `_data` dict with frame and reference state, and the frame
+    # that reference state was attached in) must be pickled too -- Cov had no hooks at all (D34)
+    COV = "beyond/orbits/cov.py"
+    cred, csst = repo.func(COV, "Cov.__reduce__"), repo.func(COV, "Cov.__setstate__")
+    ckeys_w = set()
+    for n in ast.walk(cred.node):
+        if isinstance(n, ast.Dict):
+            ckeys_w |= {k.value for k in n.keys if isinstance(k, ast.Constant)}
+    ckeys_r = {n.slice.value for n in ast.walk(csst.node) if isinstance(n, ast.Subscript) and isinstance(n.slice, ast.Constant) and unparse(n.value) == csst.params()[1]}
+    attrs_new = {t.attr for n in ast.walk(repo.func(COV, "Cov.__new__").node) if isinstance(n, ast.Assign) for t in n.targets
+                 if isinstance(t, ast.Attribute) and isinstance(t.value, ast.Name) and t.value.id == "obj"}
+    stored = {a for a in attrs_new if a not in ("_frame", "orb")}          # `_frame` and `orb` are properties over `_data`
+    restored = {t.attr for n in ast.walk(csst.node) if isinstance(n, ast.Assign) for t in n.targets
+                if isinstance(t, ast.Attribute) and isinstance(t.value, ast.Name) and t.value.id == "self"}
+    ok = ckeys_w == ckeys_r and "basestate" in ckeys_w and stored <= restored
+    chk.inst("R15.4", f"{COV}::Cov::pickle-state", ok, f"__reduce__ writes {sorted(ckeys_w)}, __setstate__ restores {sorted(restored)} (everything __new__ stores: {sorted(stored)})" if ok else
+             f"written {sorted(ckeys_w)} vs read {sorted(ckeys_r)}; __new__ stores {sorted(stored)}, __setstate__ restores {sorted(restored)}", loc(cred, cred.node))
+    # an unpickled array owns its memory: `.base` (which copy(), the setters, as_orbit / as_statevector go through) must not be None
+    for rel_, cls_ in ((SV, "StateVector"), (COV, "Cov")):
+        b = repo.try_func(rel_, f"{cls_}.base")
+        t = unparse(b.node).replace(" ", "") if b is not None else ""
+        ok = b is not None and b.is_property and "super().base" in t and "self.view(np.ndarray)" in t and "isnotNone" in t
+        chk.inst("R15.4", f"{rel_}::{cls_}.base", ok, "`.base` falls back on a plain view when the object owns its memory (after unpickling)" if ok else
+                 "no fallback for `.base is None`: an unpickled object cannot be copied or converted", loc(b, b.node) if b is not None else rel_)
     fin = repo.func(SV, "StateVector.__array_finalize__")
     ok = "object.__setattr__(self,'_data',obj._data.copy())" in unparse(fin.node).replace(" ", "") and "ifobjisNone:\nreturn".replace(" ", "") in unparse(fin.node).replace(" ", "").replace("    ", "")
     chk.inst("R15.4", f"{fin.ref}", ok, "views/arithmetic results get their own metadata dict (a copy)" if ok else "derived arrays would share the metadata dict itself", loc(fin, fin.node))
